@@ -6,6 +6,7 @@ pub uninterp spec fn sz<T>() -> nat;      // size_of::<T>()
 pub tracked struct RW {
     pub ghost region_len: nat,            // the data region's current length (metadata len)
     pub ghost holes_len: nat,             // length of the `<name>_holes` region (8 bytes per stored deleted slot)
+    pub ghost holes_exists: bool,         // whether the `<name>_holes` region exists (a re-import loads it when it does)
 }
 
 pub trait RawStrategy<T>: Sized {
@@ -31,38 +32,41 @@ impl RegionW {
     #[verifier::external_body]
     pub fn truncate_write(&self, at: usize, data: &[u8], Tracked(w): Tracked<&mut RW>) -> (r: std::result::Result<(), RawDbErr>)
         requires at <= old(w).region_len                                   // C13 / C20: never issue an out-of-bounds region write
-        ensures r is Ok ==> final(w).region_len == at + data@.len(), r is Err ==> final(w).region_len == old(w).region_len, final(w).holes_len == old(w).holes_len
+        ensures r is Ok ==> final(w).region_len == at + data@.len(), r is Err ==> final(w).region_len == old(w).region_len, final(w).holes_len == old(w).holes_len, final(w).holes_exists == old(w).holes_exists
     { unimplemented!() }
     // Region::write_at(data, at): positional write, extends the region when it ends beyond the current length
     #[verifier::external_body]
     pub fn write_at(&self, data: &[u8], at: usize, Tracked(w): Tracked<&mut RW>) -> (r: std::result::Result<(), RawDbErr>)
         requires at <= old(w).region_len
         ensures r is Ok ==> final(w).region_len == (if at + data@.len() > old(w).region_len { at + data@.len() } else { old(w).region_len as int }),
-                r is Err ==> final(w).region_len == old(w).region_len, final(w).holes_len == old(w).holes_len
+                r is Err ==> final(w).region_len == old(w).region_len, final(w).holes_len == old(w).holes_len, final(w).holes_exists == old(w).holes_exists
     { unimplemented!() }
     // Region::truncate(from): refused (TruncateInvalid) when from > len
     #[verifier::external_body]
     pub fn truncate(&self, from: usize, Tracked(w): Tracked<&mut RW>) -> (r: std::result::Result<(), RawDbErr>)
         requires from <= old(w).region_len
-        ensures r is Ok ==> final(w).region_len == from, r is Err ==> final(w).region_len == old(w).region_len, final(w).holes_len == old(w).holes_len
+        ensures r is Ok ==> final(w).region_len == from, r is Err ==> final(w).region_len == old(w).region_len, final(w).holes_len == old(w).holes_len, final(w).holes_exists == old(w).holes_exists
     { unimplemented!() }
     #[verifier::external_body] pub fn db(&self) -> DatabaseW { unimplemented!() }
 }
 impl DatabaseW {
-    #[verifier::external_body] pub fn create_region_if_needed(&self, name: &StrH) -> std::result::Result<HolesRegion, RawDbErr> { unimplemented!() }
-    #[verifier::external_body] pub fn remove_region(&self, name: &StrH) -> std::result::Result<(), RawDbErr> { unimplemented!() }
+    // the only two calls that create / delete the `<name>_holes` region (U3: create_region_if_needed, Region::remove)
+    #[verifier::external_body] pub fn create_region_if_needed(&self, name: &StrH, Tracked(w): Tracked<&mut RW>) -> (r: std::result::Result<HolesRegion, RawDbErr>)
+        ensures final(w).region_len == old(w).region_len, final(w).holes_len == old(w).holes_len, final(w).holes_exists == (old(w).holes_exists || r is Ok) { unimplemented!() }
+    #[verifier::external_body] pub fn remove_region(&self, name: &StrH, Tracked(w): Tracked<&mut RW>) -> (r: std::result::Result<(), RawDbErr>)
+        ensures final(w).region_len == old(w).region_len, final(w).holes_len == old(w).holes_len, final(w).holes_exists == (old(w).holes_exists && r is Err) { unimplemented!() }
 }
 impl HolesRegion {
     // the auxiliary region is rewritten from offset 0: always in bounds; truncate_write also cuts the region to the new contents
     #[verifier::external_body] pub fn truncate_write(&self, at: usize, data: &[u8], Tracked(w): Tracked<&mut RW>) -> (r: std::result::Result<(), RawDbErr>)
         requires at == 0
-        ensures final(w).region_len == old(w).region_len, r is Ok ==> final(w).holes_len == data@.len(), r is Err ==> final(w).holes_len == old(w).holes_len
+        ensures final(w).region_len == old(w).region_len, final(w).holes_exists == old(w).holes_exists, r is Ok ==> final(w).holes_len == data@.len(), r is Err ==> final(w).holes_len == old(w).holes_len, final(w).holes_exists == old(w).holes_exists
     { unimplemented!() }
     // Region::write_at(data, 0): overwrites in place and keeps whatever lies behind the new contents
     #[verifier::external_body] pub fn write_at(&self, data: &[u8], at: usize, Tracked(w): Tracked<&mut RW>) -> (r: std::result::Result<(), RawDbErr>)
         requires at == 0
-        ensures final(w).region_len == old(w).region_len,
-                r is Ok ==> final(w).holes_len == (if data@.len() > old(w).holes_len { data@.len() as nat } else { old(w).holes_len }), r is Err ==> final(w).holes_len == old(w).holes_len
+        ensures final(w).region_len == old(w).region_len, final(w).holes_exists == old(w).holes_exists,
+                r is Ok ==> final(w).holes_len == (if data@.len() > old(w).holes_len { data@.len() as nat } else { old(w).holes_len }), r is Err ==> final(w).holes_len == old(w).holes_len, final(w).holes_exists == old(w).holes_exists
     { unimplemented!() }
 }
 impl From<RawDbErr> for Error { #[verifier::external_body] fn from(e: RawDbErr) -> (r: Error) ensures r is RawDB { unimplemented!() } }
